@@ -519,6 +519,26 @@ def g7(prog: Program, chk: Check) -> None:
     c14.guarded_stepping(prog, chk, "G7")
 
 
+def g8(prog: Program, chk: Check) -> None:
+    chk.rule("G8", "times and step sizes are numbers: no parameter with a time role (start time, end time, time step, step counts) is tested for truthiness - `if start_time:` treats a computation that starts at t = 0 as one without a start time, `if not num_steps` an empty grid as a missing one", floor=1)
+    from rules.c02 import numeric_option_tests
+    n = 0
+    for (u, node, pname) in numeric_option_tests(prog):
+        r = roles.role_of(ast.Name(id=pname, ctx=ast.Load()))
+        if r not in ("START", "END", "DT", "STEP", "NUM_STEPS", "TIME"):
+            continue
+        n += 1
+        chk.saw(u)
+        chk.add("G8", u, f"truthiness test of `{pname}` ({r}): {norm(node)[:60]}", False,
+                f"`{pname}` is a time / step quantity: the value 0 takes the 'not given' branch", node)
+    timed = sum(1 for u in prog.units.values() if not isinstance(u.node, ast.Lambda)
+                for x in u.node.args.args
+                if roles.role_of(ast.Name(id=x.arg, ctx=ast.Load())) in ("START", "END", "DT"))
+    chk.add("G8", prog.module("tempo"), f"{timed} parameters with a time role in the package, "
+            f"{n} tested for truthiness", timed >= 30,
+            "" if timed >= 30 else "fewer time parameters than confirmed by hand")
+
+
 def run(prog: Program, chk: Check) -> None:
     chk.explanation = (
         "Decides how floats become step counts and the polynomial form of every time label: "
@@ -537,3 +557,4 @@ def run(prog: Program, chk: Check) -> None:
     chk.call(g5, prog, chk)
     chk.call(g6, prog, chk)
     chk.call(g7, prog, chk)
+    chk.call(g8, prog, chk)
